@@ -60,7 +60,10 @@ TrRxL ==
 TrSetConfig ==
   /\ IsEvent("SetConfig") /\ SetConfig(Ev.args.missLen) /\ Ev.wf
 
-TrNext == TrMissViaTable \/ TrToController \/ TrUse("PacketOut") \/ TrUse("FlowMod") \/ TrPacketOutData \/ TrSetConfig
+TrFeatures ==
+  /\ IsEvent("Features") /\ Features /\ Ev.wf /\ last'.exp.nbuf = Ev.obs.nbuf
+
+TrNext == TrFeatures \/ TrMissViaTable \/ TrToController \/ TrUse("PacketOut") \/ TrUse("FlowMod") \/ TrPacketOutData \/ TrSetConfig
           \/ TrUseL("PacketOut") \/ TrUseL("FlowMod") \/ TrPacketOutDataL \/ TrRxL
 TrSpec == TrInit /\ [][TrNext]_tvars
 
